@@ -252,7 +252,8 @@ class Proxy:
                     self.listeners.pool[index],
                 )._port,
             )
-        if self.flags.port in ports:
+        # With a unix socket there is no primary TCP listener, flags.port is unused
+        if not self.flags.unix_socket_path and self.flags.port in ports:
             ports.remove(self.flags.port)
         self.flags.ports = list(ports)
         # Write ports to port file
